@@ -65,6 +65,7 @@ class Check:
         self.violations: list[dict] = []   # reproduced counterexamples
         self.errors: list[str] = []
         self.engines: set[str] = set()
+        self.cross: dict = {}              # second-solver (cvc5) cross-check of unsat verdicts: agree / no_answer / disagree
 
     # ------------------------------------------------------------------ recording
     def add_functions(self, *names):
@@ -137,7 +138,8 @@ class Check:
             outside_the_claim=self.outside,
             stubs=self.stubs,
             solver_time_s=round(self.solver_s, 3),
-            engines=sorted(self.engines),
+            engines=sorted(self.engines) + (["cvc5 (cross-check of sampled unsat verdicts)"] if self.cross else []),
+            second_solver_cross_check=self.cross,
             technique=self.technique,
             obligation_list=[{k: o[k] for k in ("name", "status", "solver_s", "paths", "queries")}
                              for o in self.obligations][:400],
